@@ -362,6 +362,12 @@ pub fn build(id: &str, tier: &str, seed: u64, threads: usize) -> Option<Plan> {
             let bases = make_bases(&cfgs, seed, threads);
             for (b, o) in &bases {
                 cases.push(b.spec.clone());
+                if b.spec.w >= 32768 {
+                    // with a window of half the number space or more, a duplicated or repeated ACK of the previous
+                    // window carries the same 16-bit number as a block of the current one: no implementation can tell
+                    // them apart, so only the fault-free transfer is judged for such windows
+                    continue;
+                }
                 // faults on the datagrams of the windows around every wrap
                 let w = b.spec.w as u64;
                 let span = (w + 2).min(if q { 6 } else { 12 });
